@@ -278,6 +278,8 @@ def mk_entry(e):
             return int(e['v'])
         if form == 'np':
             return np.int64(e['v'])
+        if form == 'const':
+            return Scalar.MASKED                       # the class constant (masked)
         return Scalar(int(e['v']), bool(e.get('m', False)))
     if k == 'slice':
         return slice(e['a'], e['b'], e['c'])
@@ -290,6 +292,8 @@ def mk_entry(e):
             return bool(e['v'])
         if form == 'np':
             return np.bool_(e['v'])
+        if form == 'const':
+            return Boolean.MASKED                      # the class constant (masked)
         return Boolean(bool(e['v']), bool(e.get('m', False)))
     if k == 'iarr':
         v = np.array(e['v'], dtype='int64').reshape(e['shape'])
